@@ -49,10 +49,10 @@ theorem top_level_agree : topOk = true := by decide +kernel
 schema know can be produced. -/
 theorem coverage_complete : coverageOk = true := by decide +kernel
 
-/-- Operators of parametrized objects (`OpSupport`): the expression each one serialises
-to is accepted by the decoder and allowed by the schema — except rounding (`__round__`,
-`rint`), which cannot be serialised at all: finding F-C04-1, reported by the monitor. -/
-theorem expr_ops_agree : exprOk ["__round__", "rint"] = true := by decide +kernel
+/-- Operators of parametrized objects (`OpSupport`, rounding included since the repair of
+finding F-C04-1): the expression each one serialises to is accepted by the decoder and
+allowed by the schema — no exception list. -/
+theorem expr_ops_agree : exprOk [] = true := by decide +kernel
 
 /-- The optional booleans of the model's op language survive elision and re-insertion in
 the generated table (a consequence of clause (1) for these keys, checked directly). -/
